@@ -513,8 +513,16 @@ pub fn c06(ctx: &mut Ctx) {
             i += 1;
             l += step + (i % 7);
         }
+        // every length that puts a line terminator of the first record (after the bases, and - FASTQ - after the
+        // quality line, which sits at twice the length) within a few bytes of a 4 KiB ... 64 KiB buffer edge
+        for b in [4096usize, 8192, 16_384, 32_768, 65_536] {
+            lens.extend(b - 80..=b + 8);
+            lens.extend(b / 2 - 50..=b / 2 + 8);
+        }
+        lens.sort();
+        lens.dedup();
         for &len in &lens {
-            for ser in [Ser::FastaLine, Ser::Fastq, Ser::FastqCrlf] {
+            for ser in [Ser::FastaLine, Ser::Fastq, Ser::FastqCrlf, Ser::FastaCrlf] {
                 for cont in ["plain", "gz1-l6"] {
                     if !sh.mine() {
                         continue;
@@ -1373,6 +1381,13 @@ pub fn c08(ctx: &mut Ctx) {
                         nb += 1;
                     }
                 }
+            }
+        }
+        // a record in which one window in two million falls into another bin (printed fractions next to 1 and to 0)
+        for threads in [1usize, 4] {
+            if sh.mine() {
+                c08_pipeline(ctx, &crate::vecs::near_one_records(), None, 3, 2, 5, true, threads, 6.0);
+                nb += 1;
             }
         }
         // counts tables of exactly 4 KiB, 8 KiB, 64 KiB (and 8 bytes less / more): the table is read back for the histograms
